@@ -10,6 +10,7 @@
 //   * copy-assignment onto a tree whose cache is filled gives the source's range;
 //   * explicit initialize_filtration() / initialize_filtration(true) over an existing cache, and after assign_filtration;
 //   * extend_filtration over an existing cache: 2n+1 simplices, the range is a valid filtration of exactly those;
+//   * reset_filtration and expansion over an existing cache leave a valid range;
 //   * move construction / assignment: target lists the source's range, the moved-from tree lists exactly what it holds.
 // usage: simplex_tree_sweep <seed> <samples-per-complex>    prints one JSON line
 #include <gudhi/Simplex_tree.h>
@@ -98,6 +99,12 @@ template <class Opt> static void one(const std::vector<unsigned>& K, unsigned lo
     if constexpr (std::is_floating_point<V>::value) { ST x = a; (void)range_of(x); x.extend_filtration(); ++total;
       if (x.num_simplices() != 2 * K.size() + 1) fail(tag + ": extend_filtration gives " + std::to_string(x.num_simplices()) + " simplices, the cone on " + std::to_string(K.size()) + " simplices has " + std::to_string(2 * K.size() + 1));
       else { std::string d = range_defect(x); if (!d.empty()) fail(tag + ": after extend_filtration over an existing cache the filtration range " + d); } }
+    // (8) reset_filtration over an existing cache: the range is a valid filtration of the new values
+    { ST x = a; (void)range_of(x); x.reset_filtration((V)9, 1); ++total; std::string d = range_defect(x);
+      if (!d.empty()) fail(tag + ": after reset_filtration(9, 1) over an existing cache the filtration range " + d); }
+    // (9) expansion of the 1-skeleton over an existing cache: the range lists the expanded complex
+    { ST x; for (unsigned m : byd) if (__builtin_popcount(m) <= 2) x.insert_simplex(from_mask(m), mono[m]); (void)range_of(x); x.expansion(3); ++total; std::string d = range_defect(x);
+      if (!d.empty()) fail(tag + ": after expansion(3) of the 1-skeleton over an existing cache the filtration range " + d); }
     // (6) move: the target lists the source's range; the moved-from tree lists exactly its own (no) simplices and can be reused
     { ST g = a; (void)range_of(g); ST h(std::move(g)); ++total;
       if (range_of(h) != want) fail(tag + ": after move construction the target's filtration range is not the source's");
